@@ -1117,6 +1117,18 @@ def gen_c10(rng, tier):
     return cases
 
 
+def udp_frame_ffff(w, v6, dport, pl):
+    """the datagram from the source port for which the UDP checksum computes to zero (transmitted as 0xFFFF, RFC 768); None if no
+    port of the 65 536 does"""
+    s_, d_ = w.addrs(v6)
+    base = pseudo(s_, d_, 17, 8 + len(pl))
+    for sp in range(1024, 65536):
+        h = struct.pack('>HHHH', sp, dport, 8 + len(pl), 0)
+        if csum16(base + h + pl) == 0:
+            return w.udp_frame(v6, sp, dport, pl)
+    return None
+
+
 def gen_c14(rng, tier):
     """application cases + a sweep through the real UDP layer: question type x class (incl. the mDNS unicast-response
     bit 0x8000, ANY, CHAOS) x well-known DNS-family destination ports x one or two questions"""
@@ -1145,6 +1157,14 @@ def gen_c14(rng, tier):
                 ops.append(('F', w.udp_frame(False, rng.u16() | 1024, 53, q)))
                 ops.append(app_op(rng, w, q, tcp=False, v6=False))
     cases.append(acase(w, ops, ['dns-many-questions']))
+    # valid queries whose UDP checksum is transmitted as 0xFFFF (computed zero), and the neighbouring ids
+    ops = []
+    for _ in range(6 if tier == 'quick' else 60):
+        q = gen.gen_dns(rng)
+        f = udp_frame_ffff(w, False, rng.choice([53, 5353, rng.u16()]), q)
+        if f:
+            ops.append(('F', f))
+    cases.append(acase(w, ops, ['udp-checksum-ffff']))
     return cases
 
 
@@ -1186,6 +1206,26 @@ def gen_c15(rng, tier):
             if b0 < 2 and b1 < 4:
                 ops.append(app_op(rng, w, msg, tcp=False))
     cases.append(acase(w, ops, ['stun-message-type-sweep']))
+    # every attribute type a responder might know (RFC 3489 / 5389 / 5780 / 8489 ranges), with values shaped like ports, addresses
+    # and flags, in a cookie-bearing request long enough to be identified (K2) -- over UDP, as a first TCP segment, through real frames
+    ops = []
+    types = list(range(0, 0x33)) + list(range(0x8000, 0x8030)) + [0x8050, 0xc001, 0xc057, 0xffff]
+    for ty in (types if tier == 'thorough' else types[::1]):
+        val = rng.choice([b'\x12\x34', b'\x12\x34\x00\x00', b'\x00\x01\x12\x34\x0a\x00\x00\x09', struct.pack('>I', rng.choice([2, 4, 6])), b'', rng.bytes(8)])
+        attrs = gen.stun_attr(ty, val) + gen.stun_attr(0x0026, bytes(252))
+        msg = b'\x00\x01' + struct.pack('>H', len(attrs)) + b'\x21\x12\xa4\x42' + rng.bytes(12) + attrs
+        ops.append(app_op(rng, w, msg, tcp=False))
+        if ty % 4 == 0:
+            ops.append(app_op(rng, w, msg, tcp=True))
+            ops.append(('F', w.udp_frame(rng.chance(1, 2), rng.u16() | 1024, 3478, msg)))
+    cases.append(acase(w, ops, ['stun-attribute-type-sweep']))
+    ops = []
+    for _ in range(6 if tier == 'quick' else 60):
+        for v6 in (False, True):
+            f = udp_frame_ffff(w, v6, rng.choice([3478, rng.u16()]), gen.gen_stun(rng, None, magic=False) if rng.chance(1, 2) else gen.gen_stun_long(rng))
+            if f:
+                ops.append(('F', f))
+    cases.append(acase(w, ops, ['udp-checksum-ffff']))
     return cases
 
 
@@ -1213,6 +1253,22 @@ def gen_dialogues(kinds, n_quick=30):
             cases.append(case(w, frames, ['dialogue', 'kind:' + kind]))
         return realistic_acks(cases, stop_at_unanswered=True)
     return g
+
+
+def gen_c18(rng, tier):
+    """application cases + dialogues + every byte value at each position class of an SSH identification string (inside the
+    protocol version, right behind it, inside the software version, inside the comment, in front of the line end)"""
+    cases = gen_appcases(['ssh', 'ssh', 'ghost', 'raw'])(rng, tier) + gen_dialogues(['ssh', 'ghost'], 16)(rng, tier)
+    w = World(rng, selfmode=False, denymode=False)
+    ops = []
+    for pre in (b'SSH-2.0', b'SSH-1.99'):
+        for b in range(256):
+            x = bytes([b])
+            for ident in (pre + x + b'-x\r\n', pre + x + b'1-foo bar\r\n', pre + b'-a' + x + b'b\r\n', pre + b'-a ' + x + b'c\r\n', pre + b'-ab' + x + b'\n',
+                          pre[:4] + x + pre[4:] + b'-x\r\n'):
+                ops.append(app_op(rng, w, ident, tcp=(b % 2 == 0)))
+    cases.append(acase(w, ops, ['ssh-byte-sweep']))
+    return cases
 
 
 # ----------------------------------------------------------------------------- property table
@@ -1244,7 +1300,7 @@ PROPS = {
     'C17': dict(gen=lambda rng, tier: gen_appcases(['smb1', 'smb2', 'raw'])(rng, tier) + gen_dialogues(['smb1', 'smb2'], 16)(rng, tier), judge='C17', judge_mode='app', proj=proj_headers,
                 rule='SMB1/SMB2 negotiate and session-setup requests (ids, flags, dialect lists with order/duplicates/unknown, blob lengths, commands, '
                      'reply flag, truncation); non-trivial = well-formed request (response checked) or response-flag/other-command message (silence checked)'),
-    'C18': dict(gen=lambda rng, tier: gen_appcases(['ssh', 'ssh', 'ghost', 'raw'])(rng, tier) + gen_dialogues(['ssh', 'ghost'], 16)(rng, tier), judge='C18', judge_mode='app', proj=proj_headers,
+    'C18': dict(gen=gen_c18, judge='C18', judge_mode='app', proj=proj_headers,
                 rule='SSH identification strings (versions, software/comment with arbitrary bytes incl. lone CR, terminators) and Gh0st magic + tails; '
                      'non-trivial = payload starting with SSH- or the Gh0st magic'),
     'C20': dict(gen=gen_c20, judge='C20', judge_mode='log', proj=lambda r: None,
@@ -2130,7 +2186,44 @@ def explore_c19(prop, pd, tier, rng, corpus_cases):
                                'tags': [kind, str(fault)], 'outs': [str(outs[0])[:200], str(outs[bad])[:200]]})
         elif len(samples) < 3 and outs[0][0] != 'silent':
             samples.append({'payload': pl.hex()[:200], 'transport': 'tcp' if tcp else 'udp', 'variants': len(variants), 'canonical_reply': str(outs[0])[:200]})
-    compared, exact = _corr([c], lambda o, b: proj_a(b['r']) if o[0] == 'A' else proj_headers(bytes.fromhex(b['r'])) if outcome(b['r']) == 'reply' else outcome(b['r']), disagreements)
+    # configurations with a self-IP list whose two families are not alike (one address of one family, several of the other; a
+    # single family): requests that make a responder look for "another" address or port of the family (STUN CHANGE-REQUEST, every
+    # flag word) and one request of each other protocol, the same payload over IPv4 and IPv6
+    shape_cases = []
+    for shape in range(5):
+        w2 = World(rng, selfmode=True, denymode=False)
+        w2.self = [[w2.my4, w2.my6, w2.my6b], [w2.my4, w2.my4b, w2.my6], [w2.my4, w2.my6], [w2.my4, w2.my4b, w2.my6, w2.my6b, rng.bytes(16)],
+                   [w2.my4, w2.my6, rng.bytes(4), rng.bytes(4)]][shape]
+        pls = [b'\x00\x01\x00\x08' + rng.bytes(16) + b'\x00\x03\x00\x04' + struct.pack('>I', fl) for fl in (0, 2, 4, 6, 7)]
+        pls += [b'\x00\x01\x00\x00' + rng.bytes(16), gen.gen_stun_long(rng), struct.pack('>HHHHHH', 9, 0x0100, 1, 0, 0, 0) + b'\x01a\x00\x00\x01\x00\x01',
+                gen.gen_rpc(rng, False), b'GET / HTTP/1.1\r\n\r\n']
+        sops = [('C', w2.cfg()), ('X',)]
+        pairs = []
+        for pl in pls:
+            sops.append(('F', w2.udp_frame(False, 4000, 3478, pl)))
+            sops.append(('F', w2.udp_frame(True, 4000, 3478, pl)))
+            pairs.append((len(sops) - 2, len(sops) - 1, pl))
+        sc = {'ops': sops, 'tags': ['self-list-shape-%d' % shape], 'pairs': pairs}
+        shape_cases.append(sc)
+    run_cases(shape_cases)
+    for sc in shape_cases:
+        for i4, i6, pl in sc['pairs']:
+            outs = []
+            for i in (i4, i6):
+                r = sc['impl'][i]['r']
+                if outcome(r) == 'reply':
+                    d = split_reply(bytes.fromhex(r.split()[0]))
+                    rq = split_reply(sc['ops'][i][1])
+                    outs.append(canon_app((d.get('app') or b'').hex() or '-', (d['udp'][0] - rq['udp'][1]) % 65536 if 'udp' in d else None))
+                else:
+                    outs.append((outcome(r),))
+            if outs[0][0] != 'silent':
+                nontrivial += 1
+            if outs[0] != outs[1]:
+                violations.append({'clause': 'answer to the same UDP payload differs between IPv4 and IPv6 under a self-IP list whose families are not alike',
+                                   'ops': [op_to_json(sc['ops'][0]), ['X'], op_to_json(sc['ops'][i4]), op_to_json(sc['ops'][i6])],
+                                   'tags': sc['tags'], 'outs': [str(outs[0])[:200], str(outs[1])[:200]]})
+    compared, exact = _corr([c] + shape_cases, lambda o, b: proj_a(b['r']) if o[0] == 'A' else proj_headers(bytes.fromhex(b['r'])) if outcome(b['r']) == 'reply' else outcome(b['r']), disagreements)
     return _result(len(groups) * 6, nontrivial, samples, compared, exact, disagreements, violations, pd['rule'], {'kinds': dist})
 
 
